@@ -292,13 +292,15 @@ def _wlevel(chunk):
 
 
 def explore(drv: Driver, model, *, max_states=None, max_depth=None, max_violations=3,
-            replay_cap=64, parallel=None):
+            replay_cap=64, parallel=None, max_seconds=None):
     """Level-synchronous BFS over (hardware state, reference state) with every valuation of
     model.alphabet(ref) tried in every state.  Deterministic (state numbering and the first
     violation do not depend on the number of workers); the first violation is a shortest one.
 
     parallel = (nproc, module, cls, cfg): the frontier of each level is split among nproc worker
     processes, each owning its own simulator of the same design."""
+    import time as _time
+    _t0 = _time.time()
     res = Result()
     hw0 = drv.reset()
     ref0 = model.init()
@@ -324,6 +326,11 @@ def explore(drv: Driver, model, *, max_states=None, max_depth=None, max_violatio
             if max_states is not None and len(keys) >= max_states:
                 res.exhaustive = False
                 res.caps_hit.append("max_states")
+                break
+            if max_seconds is not None and d > 0 and _time.time() - _t0 > max_seconds:
+                # wall-time budget (thorough tier): stop between levels; all histories up to depth d are covered
+                res.exhaustive = False
+                res.caps_hit.append("max_seconds")
                 break
             items = [(i, keys[i][0], keys[i][1]) for i in level]
             if pool is not None and len(items) >= 8:
